@@ -6,7 +6,7 @@ reap_harvest, reap_samples, plus everything of C03 / C04 / C05 / C15 underneath.
 """
 from ..common import Cond, concretize, cbool, done, HarnessError, make_cond, split_conds
 from ..env import Env
-from .xrkit import fingerprint, same_fp, rows_of
+from .xrkit import fingerprint, same_fp, rows_of, canon
 from .C15 import install_choice
 
 import xyzpy.gen.cropping as cp
@@ -73,7 +73,8 @@ def grow_all(env, crop_name, reload_):
 
 
 # ------------------------------------------------------------------ Runner
-def body_runner(E, n1, n2, cases, nvars, idim, const_is_dim, mode, b, reload_, shuf, base, t, j1, j2, j3):
+def body_runner(E, n1, n2, cases, nvars, idim, const_is_dim, mode, b, reload_, shuf, base, t, j1, j2, j3,
+                unsorted=False):
     n1 = concretize(n1, 1, 2)
     n2 = concretize(n2, 1, 2)
     nvars = concretize(nvars, 1, 2)
@@ -85,7 +86,9 @@ def body_runner(E, n1, n2, cases, nvars, idim, const_is_dim, mode, b, reload_, s
     N = n1 * n2
     js = [0, j1, j2, j3][:N]
     combos = {"a": A[:n1], "b": B[:n2]}
-    pts = [(a, bb) for a in combos["a"] for bb in combos["b"]]
+    if cbool(unsorted):
+        combos = {"b": B[:n2], "a": A[:n1]}          # arguments given in non-alphabetical order
+    pts = [(a, bb) for a in A[:n1] for bb in B[:n2]]
     if cbool(cases):
         pts = pts[::-1][: max(1, N - 1)]          # an unsorted proper subset (holes in the grid)
     with E(pools=[js]) as env:
@@ -115,7 +118,7 @@ def body_runner(E, n1, n2, cases, nvars, idim, const_is_dim, mode, b, reload_, s
             return False
         if env.exists(env.parent + "/.xyz-rc"):
             return False
-        return same_fp(fingerprint(env, out), fingerprint(env, ref))
+        return same_fp(canon(fingerprint(env, out)), canon(fingerprint(env, ref)))
 
 
 # ------------------------------------------------------------------ Harvester
@@ -186,7 +189,7 @@ def _merge_error(env):
 def _shifted(env, ds):
     """same coordinates, different value (to provoke a conflict with a later harvest)"""
     if env.mode == "sym":
-        out = ds.copy()
+        out = ds.copy(deep=True)
         out._vars = {k: v._map(lambda c: c + 1) for k, v in out._vars.items()}
         return out
     return ds + 1
@@ -227,19 +230,21 @@ def body_sampler(E, n, bs, reload_, base, i0, i1, i2, i3):
 BODIES = {}
 _G = globals()
 _RS = ("n1:int n2:int cases:bool nvars:int idim:bool const_is_dim:bool mode:int b:int reload_:bool shuf:bool "
-       "base:int t:int j1:int j2:int j3:int")
+       "base:int t:int j1:int j2:int j3:int unsorted:bool")
 
 CONDS = [
     make_cond(_G, "runner_desc", body_runner, _RS,
               ["1 <= n1 <= 2 and 1 <= n2 <= 2 and 1 <= nvars <= 2 and mode == 1 and b == 2 and not shuf",
-               "j1 == 0 and j2 == 0 and j3 == 0", "idim or not const_is_dim"], timeout=600,
+               "j1 == 0 and j2 == 0 and j3 == 0", "idim or not const_is_dim",
+               "not unsorted or (not cases and n1 == 2 and n2 == 1 and not const_is_dim)"], timeout=600,
               bounds="Runner crops: grids up to 2x2 and unsorted case subsets, 1-2 variables, optional internal "
                      "dimension, constant that is / is not an internal dimension, resource, attribute; batchsize 2; "
-                     "with / without reloading crop and farmer by name"),
+                     "with / without reloading crop and farmer by name; combos also given in non-alphabetical "
+                     "argument order (compared up to the order of dimensions)"),
     make_cond(_G, "runner_batching", body_runner, _RS,
               ["n1 == 2 and n2 == 2 and nvars == 2 and idim and not const_is_dim and 0 <= mode <= 2 and 1 <= b <= 3",
                "0 <= j1 <= 1 and 0 <= j2 <= 2 and 0 <= j3 <= 3", "shuf or (j1 == 0 and j2 == 0 and j3 == 0)",
-               "not shuf or (mode == 1 and b == 2 and not cases)"], timeout=600,
+               "not shuf or (mode == 1 and b == 2 and not cases)", "not unsorted"], timeout=600,
               bounds="2x2 grid / 3 cases, two variables: all batchings (b in 1..3), reload on/off; plus every "
                      "sow-time shuffle permutation (batchsize 2), reaped by the sowing object or by a reloaded one"),
 ] + split_conds(_G, "harvester", body_harvester, "n1:int pre:bool mode:int b:int reload_:bool base:int t:int p1:bool p2:bool",
